@@ -61,6 +61,7 @@ int vf_obind_l(bool h, int a, int *st){ opt x{h ? opt{trk{a}} : opt{}}; vf_mark(
 int vf_ojoin_r(bool h1, bool h2, int a){ auto r = o::join(h1 ? oopt{h2 ? opt{trk{a}} : opt{}} : oopt{}); return idof(r); }
 int vf_ojoin_l(bool h1, bool h2, int a, int *st){ oopt x{h1 ? oopt{h2 ? opt{trk{a}} : opt{}} : oopt{}}; vf_mark(); auto r = o::join(x); *st = x.has_value() ? state(x.get_unsafe()) : 0; return idof(r); }
 int vf_ofilter_r(bool h, int a, bool keep){ auto r = o::filter(h ? opt{trk{a}} : opt{}, [keep](trk const &){ return keep; }); return idof(r); }
+int vf_ofilter_rv(bool h, int a, bool keep){ auto r = o::filter(h ? opt{trk{a}} : opt{}, [keep](trk t){ return keep && t.get() >= 0; }); return idof(r); }   // the predicate takes its argument BY VALUE
 int vf_ofilter_l(bool h, int a, bool keep, int *st){ opt x{h ? opt{trk{a}} : opt{}}; vf_mark(); auto r = o::filter(x, [keep](trk const &){ return keep; }); *st = state(x); return idof(r); }
 int vf_oalt_r(bool h, int a, bool hd, int b){ auto r = o::alternative(h ? opt{trk{a}} : opt{}, [hd, b]{ return hd ? opt{trk{b}} : opt{}; }); return idof(r); }
 int vf_oalt_l(bool h, int a, bool hd, int b, int *st){ opt x{h ? opt{trk{a}} : opt{}}; vf_mark(); auto r = o::alternative(x, [hd, b]{ return hd ? opt{trk{b}} : opt{}; }); *st = state(x); return idof(r); }
